@@ -228,6 +228,26 @@ def _preempt_open_histories():
     return logs
 
 
+def _reopen_history(rng):
+    """one socket object that is opened, used, closed and opened again: the numbers it hands out in the second
+    conversation are still a run of the counter pair (pack commands from the command cycle)"""
+    from geckolib.driver import GeckoUdpSocket
+    sock = GeckoUdpSocket(socket=_IdleSock())
+    hist = []
+    try:
+        for conv in range(3):
+            sock._socket = _IdleSock()          # (close() forgets the OS socket; a real one is not wanted here)
+            sock.open()
+            for _ in range(rng.randrange(3, 40)):
+                k = "C" if rng.random() < 0.4 else "P"
+                hist.append({"kind": k, "ret": sock.get_and_increment_sequence_counter(k == "C")})
+            sock.close()
+    finally:
+        if sock._exit_event is not None:
+            sock._exit_event.set()
+    return {"thr": [hist], "n": len(hist), "scenario": "close and reopen"}
+
+
 def _stress_histories(nthreads, ncalls, rng, spa=False):
     from geckolib.driver import GeckoUdpSocket
     import geckolib.spa as spamod
@@ -291,7 +311,7 @@ def run(ctx):
     ev.sample({"edge_walk": [list(x) for x in walks[0][:8]], "walks": len(walks), "edges": len(edges)})
 
     # ---- 3. code -> spec: concurrent histories -------------------------------
-    logs = _preempt_histories(0, rng) + _preempt_open_histories()
+    logs = _preempt_histories(0, rng) + _preempt_open_histories() + [_reopen_history(rng)]
     if ctx.quick:
         logs.append(_stress_histories(4, 1500, rng))
         logs.append(_stress_histories(4, 1500, rng, spa=True))
